@@ -15,17 +15,24 @@ if out.strip():
 rc, out = sh("git -C /repo apply %s/patch.diff" % d)
 if rc != 0:
     print("patch does not apply:", out); sys.exit(2)
+import shutil, tempfile
+VD = os.environ.get("VERIF_DIR", "/verif")
+evbak = tempfile.mkdtemp(prefix="evbak")
+shutil.copytree(VD + "/evidence", evbak + "/evidence")
 try:
     for spec in sys.argv[2:]:
         cid, _, tier = spec.partition(":")
         tier = tier or "quick"
         t0 = time.time()
-        rc, out = sh("./check %s %s" % (cid, tier), "/verif")
+        rc, out = sh("./check %s %s" % (cid, tier), os.environ.get("VERIF_DIR", "/verif"))
         sigs = sorted(set(l.strip()[len("signature: "):] for l in out.splitlines() if l.strip().startswith("signature:")))
         verdict = "CAUGHT" if (rc == 1 and "VIOLATION property=%s" % cid in out) else ("MISSED" if rc == 0 else "ERROR rc=%d" % rc)
         meta.setdefault("checks", {})["%s %s" % (cid, tier)] = {"verdict": verdict, "signatures": sigs[:4], "n_signatures": len(sigs), "wall_s": round(time.time() - t0, 1)}
         print(name, cid, tier, verdict, sigs[:2])
 finally:
+    shutil.rmtree(VD + "/evidence", ignore_errors=True)
+    shutil.copytree(evbak + "/evidence", VD + "/evidence")
+    shutil.rmtree(evbak, ignore_errors=True)
     sh("git -C /repo checkout -- .")
     rc, out = sh("git -C /repo status --porcelain")
     assert not out.strip(), out
